@@ -1865,11 +1865,23 @@ def long_trace_part(res, scratch, tier, seed, builds, props):
     translation of a derivation - or of a repair of the reported size -, callbacks, ambiguity flag, paired cost runs)."""
     import concurrent.futures as cf
     ents = long_sentence_entries()
+    # random grammars with translations, bigger than those of the enumerating corpus (4 nonterminals, 3 terminals, up to 9 rules of up
+    # to 4 symbols, some with `error'), on generated sentences and damaged sentences of 6-12 tokens
+    rnd = random.Random(seed + 31)
+    nbig = 80 if tier == "quick" else 500
+    for g in _corpus.random_grammars(seed + 8000, nbig, nnts=4, nterms=3, maxrules=9, maxrhs=4, trans=True, maxlen=0, empty_bias=0.08) + \
+            _corpus.random_grammars(seed + 8500, nbig // 2, nnts=3, nterms=3, maxrules=7, maxrhs=3, trans=True, err=True, maxlen=0):
+        sents = [w for w in _corpus.gen_sentences(g["rules"], rnd, 6, 12) if len(w) >= 5][:3]
+        if not sents:
+            continue
+        ents.append(dict(g, id="big-" + g["id"], inputs=sents + _corpus.damaged_inputs(sents[:1], g["alphabet"], rnd, 1), maxlen=0))
     code = CODEMAPS["ascii"]
     mx = [(la, one, cost, 1, m, 0) for la in (0, 1, 2) for (one, cost) in ((1, 0), (0, 0), (0, 1), (1, 1)) for m in ((3,) if tier == "quick" else (1, 3))]
     blocks, meta = [], {}
     for e in ents:
-        vec = {"id": e["id"], "terms": e["terms"], "rules": e["rules"], "dn": [], "ds": [], "cases": [{"w": w, "sent": False, "nd": 0, "fo": -1} for w in e["inputs"]]}
+        # the random grammars are defined with strict = 0 (ds non-empty), the curated ones with strict = 1
+        vec = {"id": e["id"], "terms": e["terms"], "rules": e["rules"], "dn": [], "ds": ([1] if e["id"].startswith("big-") else []),
+               "cases": [{"w": w, "sent": False, "nd": 0, "fo": -1} for w in e["inputs"]]}
         b = blocks_from_vector(vec, mx, mems=(0, 1), want_trees=False)
         b = [ln.replace("X sent=0 nd=-1", "X sent=-1") if ln.startswith("X ") else ln for ln in b]
         blocks.append(b)
@@ -1886,7 +1898,8 @@ def long_trace_part(res, scratch, tier, seed, builds, props):
         if len(r["trees"]) > 40:
             continue      # membership of each tree is checked; very large denoted sets are left to the enumerating families
         lines.append({"id": "%s/%s/%d,%d,%d,%d,%d" % (r["g"], r["w"], r["la"], r["one"], r["cost"], r["rec"], r["match"]), "terms": [t["n"] for t in e["terms"]], "rules": e["rules"],
-                      "sa": 1, "w": [c2n[c] for c in r["toks"]], "la": r["la"], "one": r["one"], "cost": r["cost"], "rec": r["rec"], "match": r["match"], "rc": r["rc"],
+                      "sa": 0 if r["g"].startswith("big-") else 1, "w": [c2n[c] for c in r["toks"]], "la": r["la"], "one": r["one"], "cost": r["cost"], "rec": r["rec"],
+                      "match": r["match"], "rc": r["rc"],
                       "root": r["root"], "amb": r["amb"], "mp1": r.get("mp1", 0), "mp2": r.get("mp2", 0), "calls": r["calls"],
                       "trees": [parse_canon(s, c2n) for s in r["trees"]], "over": 0, "_g": r["g"]})
     base = {}
